@@ -39,10 +39,15 @@ Progs == ndJsonDeserialize("progs.ndjson")
 VARIABLES p, dev, k, env, bad, done
 vars == <<p, dev, k, env, bad, done>>
 
-\* frame: s = remaining statements, kind in {"fun","block","loop"}, decl = variables declared
-\* in this frame, adv = TRUE when the enclosing frame has already moved past the loop statement
-Frame(s, kind, decl, adv) == [s |-> s, kind |-> kind, decl |-> decl, adv |-> adv]
+\* A program is flattened by the generator: Progs[p].blocks[b] is the statement sequence of block b
+\* (block 1 = the body of the function under analysis); compound statements name their blocks by number.
+\* frame: b = block, pc = index of the next statement, kind in {"fun","block","loop"}, decl = variables
+\* declared in this frame, adv = TRUE when the enclosing frame has already moved past the loop statement
+Frame(b, kind, decl, adv) == [b |-> b, pc |-> 1, kind |-> kind, decl |-> decl, adv |-> adv]
 Top == k[Len(k)]
+Block(f) == Progs[p].blocks[f.b]
+AtEnd(f) == f.pc > Len(Block(f))
+Cur(f)   == Block(f)[f.pc]
 
 ValidIn(e, x) == x \in DOMAIN e /\ e[x] = "valid"
 Valid(x) == ValidIn(env, x)
@@ -62,7 +67,7 @@ MoveAll(e, xs) == IF xs = << >> THEN [ok |-> TRUE, e |-> e]
 
 Init == /\ p \in 1..Len(Progs)
         /\ dev \in Devs
-        /\ k = <<Frame(Progs[p].body, "fun", {}, FALSE)>>
+        /\ k = <<Frame(1, "fun", {}, FALSE)>>
         /\ env = << >> /\ bad = FALSE /\ done = FALSE
 
 \* all final states of a program collapse into one (per verdict): the continuation is dropped
@@ -71,7 +76,7 @@ Stop(b) == /\ bad' = b /\ done' = TRUE /\ k' = << >> /\ env' = << >> /\ UNCHANGE
 Cont(k2, e2) == k' = k2 /\ env' = e2 /\ UNCHANGED <<p, dev, bad, done>>
 
 SetTop(f)   == [k EXCEPT ![Len(k)] = f]
-Rest(f)     == [f EXCEPT !.s = Tail(f.s)]
+Rest(f)     == [f EXCEPT !.pc = @ + 1]
 DeclIn(f, x) == [f EXCEPT !.decl = @ \cup {x}]
 Advance     == SetTop(Rest(Top))
 \* pop the frames i..Len(k); the variables declared in them go out of scope
@@ -146,7 +151,7 @@ Exec(st) ==
                  [x \in {st.params[i].x : i \in DOMAIN st.params} |-> "valid"])   \* its body is an entry point
 
 Step == /\ ~done
-        /\ IF Top.s = << >> THEN Fallthrough ELSE Exec(Head(Top.s))
+        /\ IF AtEnd(Top) THEN Fallthrough ELSE Exec(Cur(Top))
 
 Next == Step \/ (done /\ UNCHANGED vars)
 Spec == Init /\ [][Next]_vars
@@ -158,7 +163,7 @@ TypeOK == /\ bad \in BOOLEAN /\ done \in BOOLEAN /\ (bad => done)
 \* every variable in the status map is declared in exactly the frames on the stack (scoping)
 Scoped == done \/ (DOMAIN env = UNION {k[i].decl : i \in 1..Len(k)})
 \* break/continue only ever execute inside a loop (the generator's obligation)
-WellFormed == done \/ Top.s = << >> \/ (Head(Top.s).t \in {"break", "continue"} => InLoop)
+WellFormed == done \/ AtEnd(Top) \/ (Cur(Top).t \in {"break", "continue"} => InLoop)
 
 \* ---------------------------------------------------------------- the table
 \* always TRUE; prints every (program, variant) with a reachable bad path, and every finished one
